@@ -9,12 +9,14 @@ from ..frontend.pyfront import Repo
 
 LEVEL = 'other'
 TECHNIQUE = 'abstract interpretation of the sensitivity kernels and the radial-heating coefficient; comparison with the published kernel (Tobie et al. 2005 eq. 33) and with the global-rate coefficient by polynomial identity testing; exactness conditions of the finite-difference stencil; the energy theorem in differential form (d/dr of the energy flux along the repository\'s own ODE classes == Im mu * sensitivity_to_shear + Im K * sensitivity_to_bulk) and its surface value, by symbolic differentiation and polynomial identity testing'
-LEVEL_TEXT = ('The energy theorem is decided in differential form (R05.5): for every solution of the equations the solver integrates (compressible solid, static and dynamic; compiled classes and the interpreted kernels) the radial derivative of the energy flux equals Im(mu) H_mu + Im(K) H_K with the repository\'s own kernels, and the surface value of the flux is -(2l+1)R/(4 pi G) Im k; integrating gives the property\'s identity. Discretisation error of the quadrature and of the finite-difference dy1/dr, and the sign of Im k, are not decided. Also decided: the three formula-level facts without which the shell sum cannot '
+LEVEL_TEXT = ('The energy theorem is decided in differential form (R05.5): for every solution of the equations the solver integrates (compressible solid, static and dynamic; compiled classes and the interpreted kernels) the radial derivative of the energy flux equals Im(mu) H_mu + Im(K) H_K with the repository\'s own kernels, and the surface value of the flux is -(2l+1)R/(4 pi G) Im k; the flux is constant through liquid layers with real bulk modulus and continuous across every interface kind under the conditions C02 decides the code imposes (R05.6); integrating gives the property\'s identity for layered bodies. The sign clause is decided as well (R05.7): along solutions both kernels are non-negative sums of squares, so Im k <= 0 whenever Im(mu) >= 0 and Im(K) >= 0 in every layer. Discretisation error of the quadrature and of the finite-difference dy1/dr is not decided. Also decided: the three formula-level facts without which the shell sum cannot '
               'reproduce the global rate for generic interiors: the kernel is TB05 eq. 33, the radial derivative stencil is exact for quadratics (second-order on non-uniform grids), '
               'and the heating coefficient closes with the (21/2) global rate.')
-LEVEL_NOTE = ('Trusted: front-end, interpreter, symbolic differentiation; our transcription of TB05 eq. 33 for R05.1 (R05.5 does not use it). Not decided: convergence of the quadrature with grid refinement, the sign of Im k.')
+LEVEL_NOTE = ('Trusted: front-end, interpreter, symbolic differentiation; our transcription of TB05 eq. 33 for R05.1 (R05.5 does not use it). Not decided: convergence of the quadrature with grid refinement.')
 EXPLANATION = ('R05.1 sensitivity_to_shear/bulk == TB05 eq. 33 with dy1/dr the stencil value, at first/interior/last grid points; R05.2 stencil exact for quadratics (interior) and linear functions (ends); '
-               'R05.3 calc_radial_tidal_heating(r) * 4 pi r^2 == (21/2) G M^2 R^5 n e^2 / a^6 * 4 pi G/((2l+1) R) * H_mu * Im(mu).')
+               'R05.3 calc_radial_tidal_heating(r) * 4 pi r^2 == (21/2) G M^2 R^5 n e^2 / a^6 * 4 pi G/((2l+1) R) * H_mu * Im(mu); R05.4 no in-place update of arguments; '
+               'R05.5 energy theorem in differential form and surface value of the flux; R05.6 the flux is constant through liquid layers with real bulk modulus and continuous across every interface kind '
+               '(so the theorem holds for layered bodies); R05.7 both kernels are non-negative sums of squares along solutions, hence Im k <= 0 for dissipative or elastic layers.')
 
 
 def run(chk):
@@ -129,7 +131,7 @@ def run(chk):
     chk.ob('R05.3', 'only negative values are clamped (mask assignment to 0)', len(skipped) >= 1 and all('< 0' in s and s.rstrip().endswith('= 0.0') for s in skipped),
            f'mask statements: {skipped}', mh.where(fh), method='AST pattern')
     energy_theorem(chk, repo, it, m)
-    chk.floor('R05.5', 9)
+    chk.floor('R05.5', 9); chk.floor('R05.6', 8); chk.floor('R05.7', 8)
     from .common import inplace_lint
     inplace_lint(chk, repo, 'R05.4', ['TidalPy/radial_solver/sensitivity.py', 'TidalPy/tides/multilayer/heating.py'])
     chk.floor('R05.4', 2)
@@ -197,6 +199,15 @@ def energy_theorem(chk, repo, it, m):
         ok = d.equal(dJ, rhs)
         chk.ob('R05.5', f'{name}: d/dr of the energy flux J == Im(mu) sensitivity_to_shear + Im(K) sensitivity_to_bulk for every solution of these equations', ok,
                '' if ok else 'the local dissipation kernels do not integrate to the flux of the implemented equations: ' + d.describe(dJ, rhs), where, key=f'R05.5|{name}', method='symbolic differentiation along the ODE + GF(p^2) PIT')
+        # sign: along solutions both kernels are sums of squares with non-negative weights (certificate checked as an identity), so with (a), (b):
+        # -Im k >= 0 whenever Im(mu) >= 0 and Im(K) >= 0 in every layer
+        T = 2 * y[0] - L * y[2]
+        cert_mu = X.const(F(1, 3)) * X.fn('abs2', 2 * r * D - T) + L * r * r * X.fn('abs2', y[3]) / X.fn('abs2', P['mu']) + lv * (lv * lv - 1) * (lv + 2) * X.fn('abs2', y[2])
+        cert_K = X.fn('abs2', r * D + T)
+        ok = d.equal(Hmu, cert_mu) and d.equal(HK, cert_K)
+        chk.ob('R05.7', f'{name}: along solutions sensitivity_to_shear == |2 r y1\' - T|^2 / 3 + l(l+1) r^2 |y4|^2 / |mu|^2 + (l-1) l (l+1) (l+2) |y3|^2 and sensitivity_to_bulk == |r y1\' + T|^2 '
+               '(T = 2 y1 - l(l+1) y3): both non-negative, hence Im k <= 0 for dissipative or elastic layers', ok,
+               '' if ok else 'a kernel is not the non-negative sum of squares along solutions of this class', where, key=f'R05.7|{name}', method='sum-of-squares certificate, GF(p^2) PIT')
     # (b) surface value
     l = X.atom('l', 'pos'); R = X.atom('R_planet', 'pos'); fpG = X.atom('fourpiG', 'pos')
     y5 = X.atom('y5_surface', 'complex'); y1 = X.atom('y1_surface', 'complex'); y3 = X.atom('y3_surface', 'complex')
@@ -209,4 +220,47 @@ def energy_theorem(chk, repo, it, m):
     ok = d.equal(JR, -(2 * l + 1) * R / fpG * X.fn('imag', k_love))
     chk.ob('R05.5', 'surface value of the flux under the tidal surface condition: J(R) == -(2l+1) R / (4 pi G) * Im k, k as find_love_cf extracts it', ok, '' if ok else d.describe(JR, -(2 * l + 1) * R / fpG * X.fn('imag', k_love)),
            ml.where(ml.defs['find_love_cf']), key='R05.5|surface', method='GF(p^2) PIT')
-    chk.assume('R05.5: layers are solid (or the flux is carried by y1, y2, y5, y6 through dynamic liquid layers, C02); density, gravity and frequency real; the solution is regular at the centre (J(0) = 0)')
+    # (c) liquid layers and interfaces: with J written through the layer kind's own bilinear concomitant, J = Im W(conj y, y) / 2,
+    #     J is constant through non-dissipative liquid layers (real bulk modulus) and continuous across every kind of interface under C02's conditions
+    Pq = SM.params(); Pq['K'] = X.atom('K_liquid', 'pos')
+
+    def flux(yv, names, Pp):
+        Om = SM.symplectic_form(names, Pp)
+        acc = X.ZERO
+        for i in range(len(names)):
+            for j in range(len(names)):
+                acc = acc + X.fn('conj', yv[i]) * Om[i][j] * yv[j]
+        return X.fn('imag', acc) / 2
+    for (kind, static, incomp), cname in SM.CLASSES.items():
+        if kind != 'liquid':
+            continue
+        names = ts72.LAYOUT[(kind, static)]; n = len(names)
+        dy, y, fnode = SM.extract_rhs(repo, mo, cname, Pq, n)
+        Om = SM.symplectic_form(names, Pq)
+        acc = X.ZERO
+        for i in range(n):
+            for j in range(n):
+                acc = acc + X.diff(Om[i][j], 'r') * X.fn('conj', y[i]) * y[j] + Om[i][j] * (X.fn('conj', dy[i]) * y[j] + X.fn('conj', y[i]) * dy[j])
+        ok = d.is_zero(X.fn('imag', acc))
+        chk.ob('R05.6', f'{cname}: the energy flux is constant through a liquid layer with real bulk modulus (no dissipation is attributed to liquids)', ok,
+               '' if ok else 'dJ/dr does not vanish along solutions of this class', mo.where(fnode), key=f'R05.6|liquid|{cname}', method='symbolic differentiation along the ODE + GF(p^2) PIT')
+    solid = ts72.LAYOUT[('solid', False)]; liqd = ts72.LAYOUT[('liquid', False)]; liqs = ts72.LAYOUT[('liquid', True)]
+    g_i = X.atom('g_interface', 'pos'); rho_l = X.atom('rho_liquid', 'pos'); fq = Pq['fpG']
+    Y = {nm: X.atom(f'Y_{nm}', 'complex') for nm in solid}
+    Ys = dict(Y); Ys['y4'] = X.ZERO
+    ok = d.equal(flux([Ys[k] for k in solid], solid, Pq), flux([Y[k] for k in liqd], liqd, Pq))
+    chk.ob('R05.6', 'the energy flux is continuous across a solid / dynamic-liquid interface (y1, y2, y5, y6 continuous, zero shear on the solid side: C02)', ok, 'differs', 'TidalPy/RadialSolver/interfaces/',
+           key='R05.6|iface|solid-liquid', method='GF(p^2) PIT')
+    for other, lab in ((solid, 'solid'), (liqd, 'dynamic liquid')):
+        Yo = dict(Y); Yo['y2'] = rho_l * (g_i * Y['y1'] - Y['y5']); Yo['y4'] = X.ZERO
+        Yst = {'y5': Y['y5'], 'y7': Y['y6'] + fq / g_i * Yo['y2']}
+        ok = d.equal(flux([Yo[k] for k in other], other, Pq), flux([Yst[k] for k in liqs], liqs, Pq))
+        chk.ob('R05.6', f'the energy flux is continuous across a {lab} / static-liquid interface (y5 continuous, y7 = y6 + (4 pi G / g) y2, y2 = rho (g y1 - y5): C02)', ok, 'differs',
+               'TidalPy/RadialSolver/interfaces/', key=f'R05.6|iface|{lab}-static', method='GF(p^2) PIT')
+    # the flux of the solid layout is the J of (a)
+    Pz = SM.params()
+    yv = [X.atom(f'Y_{nm}', 'complex') for nm in solid]
+    Jsolid = Pz['r'] ** 2 * (im_conj(yv[0], yv[1]) + Pz['l'] * (Pz['l'] + 1) * im_conj(yv[2], yv[3]) + im_conj(yv[4], yv[5]) / Pz['fpG'])
+    ok = d.equal(flux(yv, solid, Pz), Jsolid)
+    chk.ob('R05.6', 'the flux written through the bilinear concomitant, Im W(conj y, y) / 2, is the J of R05.5 in solid layers', ok, 'differs', mo.rel(), key='R05.6|same-J', method='GF(p^2) PIT')
+    chk.assume('R05.5/R05.6: density, gravity and frequency real; liquid layers have a real bulk modulus; the solution is regular at the centre (J(0) = 0); the interface conditions are those C02 decides the code imposes')
